@@ -52,11 +52,11 @@ func c05Run(ctx *core.Ctx, in c05Input, gen func(r *runner) (op, bool)) c05Input
 		Class:   fmt.Sprintf("script/%d/%016x", len(r.items), h.Sum64()),
 		Trivial: r.nJobs == 0,
 		Observed: map[string]any{"items": len(r.items), "wakes": r.nWake, "job_starts": r.nJobs,
-			"races": r.raceObs, "notes": r.notes},
+			"races": r.raceObs, "early_returns": r.earlyRets, "notes": r.notes},
 		Coq: fmt.Sprintf("CScript %s %s", hx.CoqZ(in.T0), hx.CoqList(r.items)),
 	}
 	if r.hung != "" {
-		c.Direct, c.Note = 2, "liveness: "+r.hung
+		c.Direct, c.Note = 2, "liveness / crash: "+r.hung
 	} else if r.spinning {
 		c.Note = "scheduler spinning: repeated wake-ups without progress"
 	}
@@ -65,6 +65,9 @@ func c05Run(ctx *core.Ctx, in c05Input, gen func(r *runner) (op, bool)) c05Input
 	}
 	for _, o := range r.raceObs {
 		ctx.Sink.Count("race=" + o)
+	}
+	for _, o := range r.earlyRets {
+		ctx.Sink.Count("call-returned-while-scheduler-held=" + o)
 	}
 	ctx.Sink.Count(fmt.Sprintf("script/wakes=%s", bucket(r.nWake)))
 	ctx.Sink.Count(fmt.Sprintf("script/job_starts=%s", bucket(r.nJobs)))
@@ -181,6 +184,17 @@ func (g *genState) removeID(rn *runner) int64 {
 	return rn.tokens[g.R.Intn(len(rn.tokens))].id // possibly removed already
 }
 
+// dueIDs: live entries whose Next (last snapshot) is reached by a clock value of `to`
+func (g *genState) dueIDs(rn *runner, to int64) []int64 {
+	var out []int64
+	for _, e := range rn.lastSnap {
+		if p := toNs(e.Next); p != nil && *p <= to {
+			out = append(out, int64(e.ID))
+		}
+	}
+	return out
+}
+
 // everyLive: some live entry has a constant-delay schedule (it always has a Next, so the
 // scheduler always arms a timer)
 func (g *genState) everyLive(rn *runner) bool {
@@ -230,6 +244,20 @@ func (g *genState) next(rn *runner) (op, bool) {
 	}
 	if !rn.running {
 		switch p := r.Intn(100); {
+		case p < 12 && len(rn.tokens) > 0:
+			// a call issued while the freshly started scheduler goroutine is still inside Start
+			var api op
+			switch q := r.Intn(10); {
+			case q < 4:
+				api = op{Op: "remove", ID: g.removeID(rn)}
+			case q < 6 && len(rn.tokens) < 8:
+				api = op{Op: "sched", S: g.spec()}
+			case q < 8:
+				api = op{Op: "entries"}
+			default:
+				api = op{Op: "stop"}
+			}
+			return op{Op: "race", Mode: "parkstart", API: &api}, true
 		case p < 45:
 			return op{Op: "start", Run: r.Chance(1, 5)}, true
 		case p < 65 && len(rn.tokens) < 7:
@@ -283,6 +311,29 @@ func (g *genState) next(rn *runner) (op, bool) {
 			// Stop racing a wake-up: only when every live job blocks, so that "is the context
 			// complete" does not depend on when the racing wake-up's jobs return
 			api = op{Op: "stop"}
+		}
+		if m := r.Intn(10); m < 4 {
+			// the call is issued in the MIDDLE of the wake-up at `to` (scheduler held inside its
+			// logger call): prefer removing an entry that is due at this very wake-up
+			mode := "parkwake"
+			if m == 3 {
+				mode = "parkrun"
+			}
+			switch q := r.Intn(10); {
+			case q < 5:
+				id := g.removeID(rn)
+				if due := g.dueIDs(rn, to); len(due) > 0 && !r.Chance(1, 4) {
+					id = due[r.Intn(len(due))]
+				}
+				api = op{Op: "remove", ID: id}
+			case q < 6 && len(rn.tokens) < 8:
+				api = op{Op: "sched", S: g.spec()}
+			case q < 8:
+				api = op{Op: "stop"}
+			default:
+				api = op{Op: "entries"}
+			}
+			return op{Op: "race", To: to, Mode: mode, API: &api}, true
 		}
 		mode := "apifirst"
 		switch r.Intn(5) {
